@@ -137,6 +137,8 @@ pub struct Interpreter<'a, R: RealNumberInternalTrait> {
     // the same instance
     instantiated_library: HashMap<LibraryName, Library<R>>,
     import_end: bool, // indicate program's import declaration part end
+    // the macros defined through this instance; other instances do not see them
+    syntax_env: Rc<LexicalScope<Transformer>>,
     pub program_directory: Option<PathBuf>,
     _marker: PhantomData<R>,
 }
@@ -155,6 +157,7 @@ impl<'a, R: RealNumberInternalTrait> Interpreter<'a, R> {
             imported_library: HashSet::new(),
             instantiated_library: HashMap::new(),
             import_end: false,
+            syntax_env: new_syntax_environment(),
             program_directory: None,
             _marker: PhantomData,
         };
@@ -735,6 +738,7 @@ impl<'a, R: RealNumberInternalTrait> Interpreter<'a, R> {
         {
             let lexer = Lexer::from_char_stream(char_stream);
             let mut parser = Parser::from_lexer(lexer);
+            parser.syntax_env = self.syntax_env.clone();
             parser.try_fold(None, |_, statement| self.eval_root_ast(&statement?))
         }
     }
